@@ -5,6 +5,8 @@
 import RbModel.Lemmas.Pipeline
 import RbModel.Lemmas.Trak
 import RbModel.Gen.TrakOrder
+import RbModel.GdefProps
+import RbModel.Gen.GdefProps
 
 namespace RbModel.Pipeline
 open RbModel.Gen.Pipeline
@@ -316,5 +318,47 @@ theorem known_C13_vs_fallback :
     (∃ out, shape vsWitnessUcd vsWitnessFont vsWitnessCfg [(0x41, 0), (0x2003, 1), (0xFE00, 2)] = .ok out ∧
         out.map vis = [(1, 150, 0, 0, 0), (0, 50, 0, 0, 0), (3, 0, 0, 0, 0)]) :=
   ⟨⟨_, rfl, by decide⟩, ⟨_, rfl, by decide⟩⟩
+
+/-! ## GDEF glyph classes never reach the internal flag bits of `glyph_props`
+
+  `_hb_ot_layout_set_glyph_props` seeds every glyph's `glyph_props` from the font's GDEF (face.rs::glyph_props) before any
+  lookup runs; `_hb_glyph_info_is_default_ignorable` is `IGNORABLE ∧ ¬SUBSTITUTED` (bit 0x10 of the same field).  A font-table
+  value that reached bit 0x10 / 0x20 / 0x40 would make a default ignorable that NO lookup touched count as substituted: not
+  zeroed, not hidden, not removed.  `Gen.GdefProps.rows` is probed from the compiled crate on every run (class values 0..7,
+  255, 256, 65535, absent × attachment class values; fonts without GDEF / without glyph class definition). -/
+
+/-- **Class 1, 2, 3 map to BASE_GLYPH, LIGATURE, MARK | attachment class « 8; every other class value (0, 4 = Component,
+    5, …, not classified, no GDEF) maps to 0** — for the crate on every probed row (first conjunct, generated table) and for
+    the model on all values; in particular bits 4–6 (SUBSTITUTED, LIGATED, MULTIPLIED) are never set and the value fits u16. -/
+theorem C13_gdef_class_props :
+    (∀ r ∈ RbModel.Gen.GdefProps.rows, r.2.2 = RbModel.GdefProps.glyphProps r.1 r.2.1) ∧
+    ∀ (cls : Option Nat) (attach : Nat),
+      (cls = some 1 → RbModel.GdefProps.glyphProps cls attach = RbModel.GdefProps.BASE_GLYPH) ∧
+      (cls = some 2 → RbModel.GdefProps.glyphProps cls attach = RbModel.GdefProps.LIGATURE) ∧
+      (cls = some 3 → RbModel.GdefProps.glyphProps cls attach = attach % 256 * 256 + RbModel.GdefProps.MARK) ∧
+      (cls ≠ some 1 → cls ≠ some 2 → cls ≠ some 3 → RbModel.GdefProps.glyphProps cls attach = 0) ∧
+      RbModel.GdefProps.glyphProps cls attach / 16 % 8 = 0 ∧ RbModel.GdefProps.glyphProps cls attach < 65536 := by
+  refine ⟨by decide +kernel, ?_⟩
+  intro cls attach
+  refine ⟨?_, ?_, ?_, ?_, ?_⟩
+  · rintro rfl; rfl
+  · rintro rfl; rfl
+  · rintro rfl; rfl
+  · intro h1 h2 h3
+    unfold RbModel.GdefProps.glyphProps
+    split <;> simp_all
+  · unfold RbModel.GdefProps.glyphProps RbModel.GdefProps.BASE_GLYPH RbModel.GdefProps.LIGATURE RbModel.GdefProps.MARK
+    split <;> omega
+
+/-- a default ignorable whose `glyph_props` is what GDEF gives its glyph (no lookup has touched it) IS a default ignorable
+    for `zero_width_default_ignorables` / `hide_default_ignorables`, whatever class the font assigns to the glyph -/
+theorem C13_gdef_class_keeps_default_ignorable (g : G) (cls : Option Nat) (attach : Nat)
+    (h : g.var1 = RbModel.GdefProps.glyphProps cls attach) : g.isDI = g.props.ign := by
+  have hb := (C13_gdef_class_props.2 cls attach).2.2.2.2.1
+  have : g.var1 / 16 % 2 = 0 := by rw [h]; omega
+  simp [G.isDI, this]
+
+example : ∃ (g : G), g.var1 = RbModel.GdefProps.glyphProps (some 4) 7 ∧ g.props.ign = true ∧ g.isDI = true :=
+  ⟨{ (default : G) with var1 := 0, props := { (default : G).props with ign := true } }, rfl, rfl, by decide⟩
 
 end RbModel.Pipeline
